@@ -4,6 +4,7 @@
 import SplVerif.Lemmas.ParserTables
 import SplVerif.Lemmas.Resync
 import SplVerif.Lemmas.Prefix
+import SplVerif.Lemmas.Total
 
 namespace Spl.C05
 
@@ -80,5 +81,50 @@ example : ∃ ds, ds.length = 1 ∧
   rw [e]
   exact ⟨_, rfl, DeclsPrefix.proc 0 1 ['a'] 2 .LParen _ [] 3 .RParen 4 .LCurly _ [] _ .nil 5 .RCurly _ _ [] rfl
     (Or.inl ⟨3, _, rfl, rfl, rfl⟩) rfl rfl rfl rfl rfl (DeclsPrefix.nil _)⟩
+
+/-- **Damage never swallows a declaration keyword.**  For EVERY token sequence — however broken — and every
+    program `parser::parse` returns for it: each `proc` and each `type` keyword token of the sequence is the first
+    token (behind documentation comments only) of one of the global declarations of that program, at that
+    declaration's `Reference` offset.  Whatever is wrong in front of a keyword — unbalanced brackets, a missing
+    `}`, half a statement, garbage — the declaration in which the damage lies ends in front of the documentation
+    comments of the next `proc` / `type`, and a new declaration node starts there: no parser other than the two
+    declaration parsers ever consumes one of these keywords, and every recovery stops at them
+    (`Lemmas/Total`: `Clean`, `peekla_atKw`, `globalDecl_contained`, `loop_keywords`). -/
+theorem keywords_start_declarations (toks : List Token) (prog : Program) (hp : Parse.parse toks = .ok prog)
+    (q : Nat) (t : Token) (ht : toks[q]? = some t) (hk : t.kind = Kind.Proc ∨ t.kind = Kind.Type) :
+    ∃ d ∈ prog.decls, d.offset ≤ q ∧
+      ∀ i t', d.offset ≤ i → i < q → toks[i]? = some t' → t'.kind = Kind.Comment := by
+  let ctx : Parse.Ctx := { toks := toks.toArray, change := ⟨0, 0, toks.length⟩ }
+  have hparse : Parse.parse toks = match Parse.parseProgram ctx none { pos := 0 } with
+      | .ok _ p => .ok p
+      | .err _ _ => .error ⟨"expect:Parser cannot fail"⟩
+      | .panic e => .error e := rfl
+  rw [hparse] at hp
+  cases hr : Parse.parseProgram ctx none { pos := 0 } with
+  | ok s' p =>
+    rw [hr] at hp
+    simp only [Except.ok.injEq] at hp
+    subst hp
+    have ht' : ctx.toks[q]? = some t := by
+      show toks.toArray[q]? = some t
+      simpa using ht
+    obtain ⟨d, hd, h1, h2⟩ := Total.program_keywords ctx s' p hr q t ht' hk
+    refine ⟨d, hd, h1, ?_⟩
+    intro i t' hi1 hi2 hti
+    exact h2 i t' hi1 hi2 (by show toks.toArray[i]? = some t'; simpa using hti)
+  | err k x => rw [hr] at hp; cases hp
+  | panic e => rw [hr] at hp; cases hp
+
+/-- Non-vacuity: a broken first procedure (no closing brace, half an assignment) in front of a documented type
+    declaration and a second procedure: the parse succeeds and has three declarations, at offsets 0, 11 and 17
+    — the token indices of `proc`, of the comment in front of `type`, and of the second `proc`. -/
+example :
+    (match lex "proc a() { x := (1 + ;\n// doc\ntype t = int;\nproc main() {}".toList with
+     | .ok toks =>
+       (match Parse.parse toks with
+        | .ok p => p.decls.map (·.offset) == [0, 11, 17]
+        | .error _ => false)
+     | .error _ => false) = true := by
+  decide +kernel
 
 end Spl.C05
